@@ -504,6 +504,13 @@ void Node::schedule_assigned_fetch(const protocol::AnnouncePayload& payload) {
     auto [it, inserted] = pending_chunk_fetches_.try_emplace(key);
     auto& state = it->second;
 
+    if (!inserted && state.in_flight) {
+        // The outstanding request is abandoned in favour of the new announcement: release the slot it holds for its
+        // peer (state.peer_id is still the peer the request went to) before the entry is reset below.
+        note_dispatch_end(state);
+        state.in_flight = false;
+    }
+
     if (inserted) {
         state.chunk_id = payload.chunk_id;
         state.enqueue_time = now;
